@@ -1,7 +1,695 @@
-//! opts suites (stub)
-pub fn opt_case(_f: &[&str]) -> String {
-    "UNIMPLEMENTED".to_string()
+//! OPT / CLONE suites (property C19): compaction and cloning on the real `BasicGarnishData`.
+//!
+//!  OPT   \t id \t <script>                     CLONE \t id \t <script>
+//!  OPT   \t id \t run \t <escaped source> \t <input term | -> \t <mode>
+//!
+//! script = ops separated by `;`, executed on a fresh store through PUBLIC methods only:
+//!   add <term>      value term of values.rs extended with `@k` (address of handle k); new handle
+//!   h <n>           new handle with the raw address n
+//!   reg @k | val @k | frame <n>         push_register / push_value_stack / push_frame
+//!   popreg | popval | popframe          (popreg/popval: the popped address becomes a new handle)
+//!   setval @k                           *get_current_value_mut() = address (in-place update of the top input value)
+//!   sym <name> <u64>                    parse_add_symbol(name); the u64 must equal symbol_value(name)
+//!   retain | retain <n>                 retain_all_current_data / set_data_retention_count(n)
+//!   opt @i @j …                         optimize(&[…]); root handles are re-pointed through the mapping
+//!   clone @k                            clone_data; the result becomes a new handle
+//! after every opt/clone a record is printed:
+//!   <n>:<op> ok M=[mapping] <dump> BEFORE{sections} AFTER{sections}
+//!   dump     = B=(start,cursor,size)x6 H=v:_,r:_,f:_,ret:_ D=[data cells 0..cursor] Y=[symbol table cells] W=<CloneIndexMap cells outside the data block>
+//!   sections = R=[registers bottom first] V=[value stack top first] F=[frames top first: ret{saved registers}]
+//!              X=[extra roots (AFTER: through the mapping; clone: original, result)] P=[addr:value for addr < retention]
+//!              S=[sym=name] A=[every handle (clone only)]
+//! every value is rendered through the public getters (values::render) — the oracle "identical before/after"
+//! is decidable from this line alone.
+use crate::esc::unescape;
+use crate::store::{BasicStore, Store};
+use crate::values::{build as build_value, parse_term, render, Term};
+use garnish_lang_compiler::build::build;
+use garnish_lang_compiler::lex::lex;
+use garnish_lang_compiler::parse::parse;
+use garnish_lang_runtime::{execute_current_instruction, SimpleRuntimeState};
+use garnish_lang_simple_data::{symbol_value, BasicData, SimpleNumber};
+use garnish_lang_traits::{GarnishData, GarnishDataType};
+use std::panic::{catch_unwind, AssertUnwindSafe};
+
+const STEP_LIMIT: usize = 20000;
+
+pub fn opt_case(f: &[&str]) -> String {
+    if f.len() >= 3 && f[2] == "run" {
+        return run_stream(f);
+    }
+    if f.len() < 3 {
+        return "BAD-CASE".into();
+    }
+    script_case(f[2])
 }
-pub fn clone_case(_f: &[&str]) -> String {
-    "UNIMPLEMENTED".to_string()
+
+pub fn clone_case(f: &[&str]) -> String {
+    if f.len() < 3 {
+        return "BAD-CASE".into();
+    }
+    script_case(f[2])
+}
+
+// ------------------------------------------------------------------ dump
+
+fn show_opt(o: Option<usize>) -> String {
+    match o {
+        Some(v) => v.to_string(),
+        None => "-".into(),
+    }
+}
+
+fn cell_token(c: &BasicData<()>) -> String {
+    use BasicData::*;
+    match c {
+        Unit => "U".into(),
+        True => "T".into(),
+        False => "F".into(),
+        Type(t) => format!("TY:{:?}", t),
+        Number(SimpleNumber::Integer(v)) => format!("N:i{}", v),
+        Number(SimpleNumber::Float(x)) => format!("N:f{:016x}", x.to_bits()),
+        Char(c) => format!("C:{}", *c as u32),
+        Byte(b) => format!("B:{}", b),
+        Symbol(s) => format!("S:{}", s),
+        SymbolList(n) => format!("SL:{}", n),
+        Expression(e) => format!("E:{}", e),
+        External(e) => format!("X:{}", e),
+        CharList(n) => format!("CL:{}", n),
+        ByteList(n) => format!("BL:{}", n),
+        Pair(a, b) => format!("P:{},{}", a, b),
+        Range(a, b) => format!("R:{},{}", a, b),
+        Slice(a, b) => format!("SLC:{},{}", a, b),
+        Partial(a, b) => format!("PA:{},{}", a, b),
+        List(a, b) => format!("L:{},{}", a, b),
+        Concatenation(a, b) => format!("CAT:{},{}", a, b),
+        Custom(_) => "CU".into(),
+        Empty => "_".into(),
+        UninitializedList(a, b) => format!("UL:{},{}", a, b),
+        ListItem(a) => format!("LI:{}", a),
+        AssociativeItem(s, a) => format!("AI:{},{}", s, a),
+        Value(a, b) => format!("V:{},{}", a, b),
+        ValueRoot(a) => format!("VR:{}", a),
+        Register(a, b) => format!("RG:{},{}", a, b),
+        RegisterRoot(a) => format!("RR:{}", a),
+        InstructionWithData(i, d) => format!("IWD:{},{}", *i as usize, d),
+        Instruction(i) => format!("I:{}", *i as usize),
+        JumpPoint(p) => format!("JP:{}", p),
+        Frame(a, b) => format!("FR:{},{}", a, b),
+        FrameIndex(a) => format!("FI:{}", a),
+        FrameRegister(a) => format!("FG:{}", a),
+        FrameRoot => "FRT".into(),
+        CloneItem(a) => format!("CI:{}", a),
+        CloneIndexMap(a, b) => format!("CM:{},{}", a, b),
+    }
+}
+
+#[cfg(garnish_verif)]
+fn dump(d: &BasicStore) -> String {
+    let blocks = d.verif_blocks();
+    let b: String = blocks.iter().map(|(s, c, z)| format!("({},{},{})", s, c, z)).collect();
+    let (v, r, f, ret) = d.verif_heads();
+    let (ds, dc, _) = blocks[4];
+    let cells: Vec<String> = (0..dc).map(|i| d.verif_cell(ds + i).map(cell_token).unwrap_or("?".into())).collect();
+    let (ys, yc, _) = blocks[2];
+    let syms: Vec<String> = (0..yc).map(|i| d.verif_cell(ys + i).map(cell_token).unwrap_or("?".into())).collect();
+    let mut stray = 0;
+    for i in 0..d.verif_heap_len() {
+        if i >= ds && i < ds + dc {
+            continue;
+        }
+        match d.verif_cell(i) {
+            Some(BasicData::CloneIndexMap(_, _)) => stray += 1,
+            Some(BasicData::Empty) | None => {}
+            Some(_) => {
+                // a non-empty cell at or above a cursor (the model assumes there is none)
+                let in_used = blocks.iter().any(|(s, c, _)| i >= *s && i < *s + *c);
+                if !in_used {
+                    stray += 1000;
+                }
+            }
+        }
+    }
+    format!(
+        "B={} H=v:{},r:{},f:{},ret:{} D=[{}] Y=[{}] W={}",
+        b,
+        show_opt(v),
+        show_opt(r),
+        show_opt(f),
+        ret,
+        cells.join(" "),
+        syms.join(" "),
+        stray
+    )
+}
+
+#[cfg(not(garnish_verif))]
+fn dump(_d: &BasicStore) -> String {
+    "NO-HOOKS".into()
+}
+
+// ------------------------------------------------------------------ structural read-back (public API only)
+
+fn safe_render(d: &BasicStore, a: usize) -> String {
+    match catch_unwind(AssertUnwindSafe(|| render(d, a, 0))) {
+        Ok(s) => s,
+        Err(_) => "<panic>".into(),
+    }
+}
+
+/// `values::render` plus the key table of lists: for every distinct symbol that keys an item,
+/// the value `get_list_item_with_symbol` finds
+fn render_keys(d: &BasicStore, a: usize, depth: usize, out: &mut Vec<String>) {
+    if depth > 40 {
+        return;
+    }
+    let two = |x: Result<(usize, usize), _>, out: &mut Vec<String>| {
+        if let Ok((l, r)) = x {
+            render_keys(d, l, depth + 1, out);
+            render_keys(d, r, depth + 1, out);
+        }
+    };
+    match d.get_data_type(a) {
+        Ok(GarnishDataType::Pair) => two(d.get_pair(a), out),
+        Ok(GarnishDataType::Concatenation) => two(d.get_concatenation(a), out),
+        Ok(GarnishDataType::Range) => two(d.get_range(a), out),
+        Ok(GarnishDataType::Slice) => two(d.get_slice(a), out),
+        Ok(GarnishDataType::Partial) => two(d.get_partial(a), out),
+        Ok(GarnishDataType::List) => {
+            let len = d.get_list_len(a).unwrap_or(0);
+            let mut seen: Vec<u64> = vec![];
+            let mut items = vec![];
+            for i in 0..len {
+                if let Ok(Some(it)) = d.get_list_item(a, SimpleNumber::Integer(i as i32)) {
+                    items.push(it);
+                    if let Ok((l, _)) = d.get_pair(it) {
+                        if let Ok(s) = d.get_symbol(l) {
+                            if !seen.contains(&s) {
+                                seen.push(s);
+                            }
+                        }
+                    }
+                }
+            }
+            for s in seen {
+                let v = match d.get_list_item_with_symbol(a, s) {
+                    Ok(Some(x)) => render(d, x, depth + 1),
+                    Ok(None) => "none".into(),
+                    Err(_) => "<err>".into(),
+                };
+                out.push(format!("{}>{}", s, v));
+            }
+            for it in items {
+                render_keys(d, it, depth + 1, out);
+            }
+        }
+        _ => {}
+    }
+}
+
+fn render_full(d: &BasicStore, a: usize) -> String {
+    match catch_unwind(AssertUnwindSafe(|| {
+        let mut keys = vec![];
+        render_keys(d, a, 0, &mut keys);
+        if keys.is_empty() { render(d, a, 0) } else { format!("{} K<{}>", render(d, a, 0), keys.join(" ")) }
+    })) {
+        Ok(s) => s,
+        Err(_) => "<panic>".into(),
+    }
+}
+
+fn registers(d: &BasicStore) -> String {
+    let n = d.get_register_len();
+    let v: Vec<String> = (0..n).map(|i| d.get_register(i).map(|a| render_full(d, a)).unwrap_or("<none>".into())).collect();
+    v.join(";")
+}
+
+fn sections(d: &BasicStore, roots: &[usize], retention: usize, syms: &[(u64, String)], handles: Option<&[usize]>) -> String {
+    let r = registers(d);
+    // value stack and frames: pop a copy (public API; no indexed getter exists)
+    let mut c = d.clone();
+    let mut vals = vec![];
+    let mut guard = 0;
+    while let Some(a) = c.pop_value_stack() {
+        vals.push(render_full(&c, a));
+        guard += 1;
+        if guard > 100000 {
+            vals.push("<loop>".into());
+            break;
+        }
+    }
+    let mut c = d.clone();
+    let mut frames = vec![];
+    guard = 0;
+    loop {
+        match catch_unwind(AssertUnwindSafe(|| c.pop_frame())) {
+            Ok(Ok(Some(ret))) => frames.push(format!("{}{{{}}}", ret, registers(&c))),
+            Ok(Ok(None)) => break,
+            Ok(Err(_)) => {
+                frames.push("<err>".into());
+                break;
+            }
+            Err(_) => {
+                frames.push("<panic>".into());
+                break;
+            }
+        }
+        guard += 1;
+        if guard > 100000 {
+            frames.push("<loop>".into());
+            break;
+        }
+    }
+    let x: Vec<String> = roots.iter().map(|a| render_full(d, *a)).collect();
+    let mut p = vec![];
+    for a in 0..retention {
+        match d.get_data_type(a) {
+            Ok(GarnishDataType::Invalid) | Err(_) => {}
+            Ok(_) => p.push(format!("{}:{}", a, render_full(d, a))),
+        }
+    }
+    let mut s = vec![];
+    let mut seen: Vec<u64> = vec![];
+    for (sym, _) in syms {
+        if seen.contains(sym) {
+            continue;
+        }
+        seen.push(*sym);
+        let name = match catch_unwind(AssertUnwindSafe(|| d.get_symbol_string(*sym))) {
+            Ok(Ok(Some(n))) => format!("\"{}\"", n),
+            Ok(Ok(None)) => "none".into(),
+            Ok(Err(_)) => "<err>".into(),
+            Err(_) => "<panic>".into(),
+        };
+        s.push(format!("{}={}", sym, name));
+    }
+    let mut out = format!("R=[{}] V=[{}] F=[{}] X=[{}] P=[{}] S=[{}]", r, vals.join(";"), frames.join(";"), x.join(";"), p.join(";"), s.join(";"));
+    if let Some(hs) = handles {
+        let a: Vec<String> = hs.iter().map(|a| safe_render(d, *a)).collect();
+        out.push_str(&format!(" A=[{}]", a.join(";")));
+    }
+    out
+}
+
+// ------------------------------------------------------------------ terms with handles
+
+fn handle_of(tok: &str, handles: &[usize]) -> Result<usize, String> {
+    let k: usize = tok.strip_prefix('@').ok_or("expected @k")?.parse().map_err(|_| "bad handle")?;
+    handles.get(k).cloned().ok_or_else(|| "unknown handle".to_string())
+}
+
+fn de<E: std::fmt::Display>(e: E) -> String {
+    format!("data error: {}", e)
+}
+
+/// values::build with `@k` atoms (children are built left to right, exactly as values::build does)
+fn build_h(d: &mut BasicStore, t: &Term, handles: &[usize]) -> Result<usize, String> {
+    match t {
+        Term::Atom(a) if a.starts_with('@') => handle_of(a, handles),
+        Term::Atom(_) => build_value(d, t),
+        Term::List(items) => {
+            let head = match items.first() {
+                Some(Term::Atom(a)) => a.as_str(),
+                _ => return Err("bad term".into()),
+            };
+            match head {
+                "p" | "cat" | "r" | "sl" | "pa" => {
+                    if items.len() != 3 {
+                        return Err("arity".into());
+                    }
+                    let l = build_h(d, &items[1], handles)?;
+                    let r = build_h(d, &items[2], handles)?;
+                    match head {
+                        "p" => d.add_pair((l, r)).map_err(de),
+                        "cat" => d.add_concatenation(l, r).map_err(de),
+                        "r" => d.add_range(l, r).map_err(de),
+                        "sl" => d.add_slice(l, r).map_err(de),
+                        _ => d.add_partial(l, r).map_err(de),
+                    }
+                }
+                "l" => {
+                    let mut addrs = vec![];
+                    for it in &items[1..] {
+                        addrs.push(build_h(d, it, handles)?);
+                    }
+                    let mut li = d.start_list(addrs.len()).map_err(de)?;
+                    for a in addrs {
+                        li = d.add_to_list(li, a).map_err(de)?;
+                    }
+                    d.end_list(li).map_err(de)
+                }
+                "syl" => {
+                    if items.len() < 3 {
+                        return Err("symbol list needs two parts".into());
+                    }
+                    let mut acc = build_h(d, &items[1], handles)?;
+                    for it in &items[2..] {
+                        let a = build_h(d, it, handles)?;
+                        acc = d.merge_to_symbol_list(acc, a).map_err(de)?;
+                    }
+                    Ok(acc)
+                }
+                _ => build_value(d, t),
+            }
+        }
+    }
+}
+
+// ------------------------------------------------------------------ scripts
+
+fn script_case(script: &str) -> String {
+    let mut d = BasicStore::create(None);
+    let mut handles: Vec<usize> = vec![];
+    let mut syms: Vec<(u64, String)> = vec![];
+    let mut out: Vec<String> = vec![];
+    let mut stopped = false;
+    for (n, op) in script.split(';').enumerate() {
+        let op = op.trim();
+        if op.is_empty() {
+            continue;
+        }
+        let (word, rest) = match op.split_once(' ') {
+            Some((w, r)) => (w, r.trim()),
+            None => (op, ""),
+        };
+        let mut fail = |out: &mut Vec<String>, what: &str| {
+            out.push(format!("{}:{} {}", n, word, what));
+            stopped = true;
+        };
+        match word {
+            "add" => {
+                let t = match parse_term(rest) {
+                    Ok(t) => t,
+                    Err(e) => return format!("BAD-TERM {}", e),
+                };
+                match build_h(&mut d, &t, &handles) {
+                    Ok(a) => handles.push(a),
+                    Err(_) => {
+                        fail(&mut out, "err");
+                        break;
+                    }
+                }
+            }
+            "h" => handles.push(rest.parse().unwrap_or(0)),
+            "reg" | "val" => {
+                let a = match handle_of(rest, &handles) {
+                    Ok(a) => a,
+                    Err(e) => return format!("BAD-SCRIPT {}", e),
+                };
+                let r = if word == "reg" { d.push_register(a) } else { d.push_value_stack(a) };
+                if r.is_err() {
+                    fail(&mut out, "err");
+                    break;
+                }
+            }
+            "setval" => {
+                let a = match handle_of(rest, &handles) {
+                    Ok(a) => a,
+                    Err(e) => return format!("BAD-SCRIPT {}", e),
+                };
+                // what `update_value` / `end_expression` / reapply do: overwrite the top input value in place
+                match d.get_current_value_mut() {
+                    Some(v) => *v = a,
+                    None => {
+                        fail(&mut out, "err");
+                        break;
+                    }
+                }
+            }
+            "frame" => {
+                if d.push_frame(rest.parse().unwrap_or(0)).is_err() {
+                    fail(&mut out, "err");
+                    break;
+                }
+            }
+            "popreg" => match d.pop_register() {
+                Ok(Some(a)) => handles.push(a),
+                Ok(None) => {}
+                Err(_) => {
+                    fail(&mut out, "err");
+                    break;
+                }
+            },
+            "popval" => {
+                if let Some(a) = d.pop_value_stack() {
+                    handles.push(a)
+                }
+            }
+            "popframe" => match catch_unwind(AssertUnwindSafe(|| d.pop_frame())) {
+                Ok(Ok(_)) => {}
+                Ok(Err(_)) => {
+                    fail(&mut out, "err");
+                    break;
+                }
+                Err(_) => {
+                    fail(&mut out, "panic");
+                    break;
+                }
+            },
+            "sym" => {
+                let (name, hash) = match rest.split_once(' ') {
+                    Some(x) => x,
+                    None => return "BAD-SCRIPT sym".into(),
+                };
+                let h: u64 = hash.parse().unwrap_or(0);
+                if symbol_value(name) != h {
+                    return format!("BAD-HASH {} {}", name, symbol_value(name));
+                }
+                match d.parse_add_symbol(name) {
+                    Ok(a) => {
+                        handles.push(a);
+                        syms.push((h, name.to_string()));
+                    }
+                    Err(_) => {
+                        fail(&mut out, "err");
+                        break;
+                    }
+                }
+            }
+            "retain" => {
+                if rest.is_empty() {
+                    d.retain_all_current_data()
+                } else {
+                    d.set_data_retention_count(rest.parse().unwrap_or(0))
+                }
+            }
+            "opt" => {
+                let mut roots = vec![];
+                let mut root_handles = vec![];
+                for tok in rest.split_whitespace() {
+                    match handle_of(tok, &handles) {
+                        Ok(a) => {
+                            roots.push(a);
+                            root_handles.push(tok[1..].parse::<usize>().unwrap());
+                        }
+                        Err(e) => return format!("BAD-SCRIPT {}", e),
+                    }
+                }
+                let retention = d.data_retention_count();
+                let before = sections(&d, &roots, retention, &syms, None);
+                match catch_unwind(AssertUnwindSafe(|| d.optimize(&roots))) {
+                    Ok(Ok(map)) => {
+                        for (h, m) in root_handles.iter().zip(map.iter()) {
+                            handles[*h] = *m;
+                        }
+                        let after = sections(&d, &map, retention, &syms, None);
+                        let m: Vec<String> = map.iter().map(|x| x.to_string()).collect();
+                        out.push(format!("{}:opt ok M=[{}] {} BEFORE{{{}}} AFTER{{{}}}", n, m.join(","), dump(&d), before, after));
+                    }
+                    Ok(Err(e)) => {
+                        fail(&mut out, &format!("err E<{}>", e.to_string().replace('>', ")")));
+                        break;
+                    }
+                    Err(_) => {
+                        fail(&mut out, "panic");
+                        break;
+                    }
+                }
+            }
+            "clone" => {
+                let a = match handle_of(rest, &handles) {
+                    Ok(a) => a,
+                    Err(e) => return format!("BAD-SCRIPT {}", e),
+                };
+                let retention = d.data_retention_count();
+                // handles that denote a cell now (stale handles of compacted-away values may not)
+                let len0 = d.get_data_len();
+                let shown: Vec<usize> = handles.iter().cloned().filter(|h| *h < len0).collect();
+                let before = sections(&d, &[a], retention, &syms, Some(&shown));
+                match catch_unwind(AssertUnwindSafe(|| d.clone_data(a))) {
+                    Ok(Ok(new)) => {
+                        let after = sections(&d, &[a, new], retention, &syms, Some(&shown));
+                        handles.push(new);
+                        out.push(format!("{}:clone ok M=[{}] {} BEFORE{{{}}} AFTER{{{}}}", n, new, dump(&d), before, after));
+                    }
+                    Ok(Err(e)) => {
+                        fail(&mut out, &format!("err E<{}>", e.to_string().replace('>', ")")));
+                        break;
+                    }
+                    Err(_) => {
+                        fail(&mut out, "panic");
+                        break;
+                    }
+                }
+            }
+            w => return format!("BAD-SCRIPT op {}", w),
+        }
+    }
+    // final state: the script may go on after the last opt/clone (pops, adds): one closing dump
+    // (not after an error: the store is then left with a partly built index list)
+    if !stopped {
+        out.push(format!("end {}", dump(&d)));
+    }
+    out.join(" || ")
+}
+
+// ------------------------------------------------------------------ programs
+
+/// OPT id run <source> <input> <mode>
+///   mode: base | every | ret<j>k<n> (retain again at boundary j, compact at n) | k<n> (compact once, at step boundary n) | dump<n> (as k<n>, with heap dumps)
+///         | twice<n> (compact twice in a row at boundary n)
+/// boundary n = after n instructions have executed (0 = before the first)
+fn run_stream(f: &[&str]) -> String {
+    if f.len() < 6 {
+        return "BAD-CASE".into();
+    }
+    let src = unescape(f[3]);
+    let mode = f[5];
+    let mut d = BasicStore::create(None);
+    let tokens = match lex(&src) {
+        Ok(t) => t,
+        Err(_) => return "lexerr".into(),
+    };
+    let parsed = match parse(&tokens) {
+        Ok(p) => p,
+        Err(_) => return "parseerr".into(),
+    };
+    let bd = match build(parsed.get_root(), parsed.get_nodes().clone(), &mut d) {
+        Ok(b) => b,
+        Err(_) => return "builderr".into(),
+    };
+    // the host keeps what `build` stored (constants referenced from instructions, symbol names)
+    d.retain_all_current_data();
+    let input = if f[4] == "-" {
+        d.add_unit().map_err(de)
+    } else {
+        match parse_term(f[4]) {
+            Ok(t) => build_value(&mut d, &t),
+            Err(e) => Err(e),
+        }
+    };
+    let input = match input {
+        Ok(i) => i,
+        Err(_) => return "inputerr".into(),
+    };
+    let start = match d.get_from_jump_table(*bd.jump_index()) {
+        Some(s) => s,
+        None => return "no-entry".into(),
+    };
+    let _ = d.set_instruction_cursor(start);
+    if d.push_value_stack(input).is_err() {
+        return "push-input-err".into();
+    }
+    let mut retain_at: Option<usize> = None;
+    let (which, at): (&str, usize) = if mode == "base" {
+        ("base", 0)
+    } else if mode == "every" {
+        ("every", 0)
+    } else if let Some(n) = mode.strip_prefix("dump") {
+        ("dump", n.parse().unwrap_or(0))
+    } else if let Some(n) = mode.strip_prefix("twice") {
+        ("twice", n.parse().unwrap_or(0))
+    } else if let Some(n) = mode.strip_prefix('k') {
+        ("k", n.parse().unwrap_or(0))
+    } else if let Some(rest) = mode.strip_prefix("ret") {
+        // ret<j>k<k>: retain_all_current_data() again at boundary j, compact at boundary k >= j
+        match rest.split_once('k') {
+            Some((j, k)) => {
+                retain_at = j.parse().ok();
+                ("k", k.parse().unwrap_or(0))
+            }
+            None => return "BAD-MODE".into(),
+        }
+    } else {
+        return "BAD-MODE".into();
+    };
+    let mut steps = 0usize;
+    let mut compactions = 0usize;
+    let mut dumps = String::new();
+    loop {
+        if retain_at == Some(steps) {
+            d.retain_all_current_data();
+        }
+        let here = match which {
+            "every" => true,
+            "k" | "dump" | "twice" => steps == at,
+            _ => false,
+        };
+        if here {
+            let rounds = if which == "twice" { 2 } else { 1 };
+            for _ in 0..rounds {
+                if which == "dump" {
+                    dumps.push_str(&format!(" PRE<{}>", dump(&d)));
+                }
+                match catch_unwind(AssertUnwindSafe(|| d.optimize(&[]))) {
+                    Ok(Ok(_)) => compactions += 1,
+                    Ok(Err(e)) => return format!("opterr@{} {:?}", steps, e),
+                    Err(_) => return format!("optpanic@{}", steps),
+                }
+                if which == "dump" {
+                    dumps.push_str(&format!(" POST<{}>", dump(&d)));
+                }
+            }
+        }
+        let res = match catch_unwind(AssertUnwindSafe(|| execute_current_instruction(&mut d))) {
+            Ok(r) => r,
+            Err(_) => return format!("runpanic@{} compactions={}", steps, compactions),
+        };
+        steps += 1;
+        match res {
+            Err(e) => return format!("runerr@{} {:?} compactions={}", steps, e.get_type(), compactions),
+            Ok(info) => {
+                if info.get_state() == SimpleRuntimeState::End {
+                    break;
+                }
+            }
+        }
+        if steps >= STEP_LIMIT {
+            return format!("steplimit compactions={}", compactions);
+        }
+    }
+    // boundary `steps` = after the last instruction: the host compacts, then reads the result
+    if retain_at == Some(steps) {
+        d.retain_all_current_data();
+    }
+    if which == "every" || (which != "base" && at == steps) {
+        let rounds = if which == "twice" { 2 } else { 1 };
+        for _ in 0..rounds {
+            if which == "dump" {
+                dumps.push_str(&format!(" PRE<{}>", dump(&d)));
+            }
+            match catch_unwind(AssertUnwindSafe(|| d.optimize(&[]))) {
+                Ok(Ok(_)) => compactions += 1,
+                Ok(Err(e)) => return format!("opterr@{} {:?}", steps, e),
+                Err(_) => return format!("optpanic@{}", steps),
+            }
+            if which == "dump" {
+                dumps.push_str(&format!(" POST<{}>", dump(&d)));
+            }
+        }
+    }
+    let value = match d.get_current_value() {
+        Some(v) => render_full(&d, v),
+        None => "<no-value>".to_string(),
+    };
+    format!(
+        "ok {} steps={} regs={} vals={} frames={} compactions={}{}",
+        value,
+        steps,
+        d.get_register_len(),
+        d.value_stack_len(),
+        d.frame_depth(),
+        compactions,
+        dumps
+    )
 }
